@@ -20,7 +20,7 @@ RULE = ("a case is (scripts for up to 3 connections on one sid over {config, upl
         "timing source (the 1 s cleanup sleep) is a gate released by the schedule, the transport is an in-memory duplex with the "
         "exact websocket surface the server uses, and the loop is run to quiescence after every event. Oracle (history "
         "invariants): (S) no config/upload/result reply reaches connection j while an earlier-opened connection is neither closed "
-        "by the harness nor by the server; (M) after closing everything and releasing all gates, a probe connection's init-echo "
+        "by the harness nor by the server, and such a connection receives a control ('wait') message before any reply (W); (M) after closing everything and releasing all gates, a probe connection's init-echo "
         "state >= every state whose transition was acknowledged with ok:True; (I) probe searches answer from the acknowledged "
         "index; (L) the stored config and index are acknowledged ones. Exhaustive over all schedules of 2 connections with "
         "scripts of length <= 1 (+ selected length-2 scripts) and 3 connections with scripts of length <= 1 in quick; all scripts "
@@ -137,6 +137,15 @@ async def execute(case, transport="mem"):
                 ci = live[i]
                 if ci.closed_at is None or ci.closed_at > cj.opened_at:
                     overlap = True
+            # (W) a connection that arrives while an earlier one is still open is told to wait (control message) before anything else
+            #     than its init echo reaches it
+            blockers = [live[i] for i in range(j) if live[i].closed_at is None or live[i].closed_at > cj.opened_at]
+            if blockers:
+                kinds = [m.get("type") for (_, m) in cj.messages]
+                first_other = next((k for k in kinds if k != "init"), None)
+                if first_other is not None and first_other != "control":
+                    raise Violation("connection %d was opened while connection %d was still open but was not told to wait (messages %r) "
+                                    "| events: %r" % (cj.index, blockers[0].index, kinds, executed), "W:not_told_to_wait")
             for (t, m) in cj.messages:
                 mt = m.get("type")
                 ok_reply = mt in ("config", "upload_edb") and isinstance(m.get("decoded"), dict) and m["decoded"].get("ok") is True
@@ -218,11 +227,18 @@ async def execute(case, transport="mem"):
 def run_once(case, transport="mem"):
     from vlib import rig
     rig.modules()
-    return rig.run(execute(case, transport))
+
+    async def bounded():
+        try:
+            return await asyncio.wait_for(execute(case, transport), 60 if transport == "mem" else 120)
+        except asyncio.TimeoutError:
+            raise HarnessError("schedule did not finish within its time budget on the %s transport (inconclusive): %r" % (transport, case["scripts"]))
+    return rig.run(bounded())
 
 
 def run_case(case):
-    """in-memory run; a violation is confirmed over real loopback sockets before it is reported"""
+    """in-memory run; a violation is confirmed over real loopback sockets before it is reported (used by replay and by the
+    final confirmation of the few cases a shard reports; the search itself runs on the in-memory transport only)"""
     try:
         return run_once(case, "mem")
     except Violation as v:
@@ -280,10 +296,26 @@ def st_case(draw):
     return {"scripts": scripts, "choices": choices}
 
 
+def confirm(res):
+    """re-execute every violation this shard is about to report over real sockets; keep only confirmed ones"""
+    kept = []
+    for v in res.violations:
+        case = {"scripts": v["case"]["scripts"], "choices": v["case"]["choices"]}
+        try:
+            run_case(case)
+        except Violation as v2:
+            kept.append({"case": case, "msg": str(v2), "bucket": v["bucket"]})
+        except HarnessError as e:
+            res.harness_errors.append(str(e))
+        else:
+            res.harness_errors.append("violation %r of the in-memory run did not reproduce on a second in-memory run (flaky harness)" % v["bucket"])
+    res.violations = kept
+
+
 def body(case, res):
     info = None
     try:
-        info = run_case(case)
+        info = run_once(case, "mem")
         case["_branching"] = info["branching"]
     finally:
         nt = bool(info and info["overlap"] and info["ack"] >= 1)
@@ -326,6 +358,7 @@ def run_shard(spec, seed, tier):
     res = ShardResult()
     if spec["kind"] == "hyp":
         hyp.search(res, st_case(), body, seed, 150 if tier == "quick" else 5000)
+        confirm(res)
         return res
     if spec["kind"] == "fidelity":
         hyp.search(res, st_case(), fidelity_body, seed, 8 if tier == "quick" else 60, shrink=False)
@@ -335,7 +368,12 @@ def run_shard(spec, seed, tier):
     mine = [s for i, s in enumerate(allscripts) if i % spec["of"] == spec["part"]]
     first = {}
     nsched = 0
+    violating_sets = 0
     for scripts in mine:
+        if violating_sets >= 3:
+            res.notes.append("enumeration stopped early: three script sets already violate an invariant")
+            res.exhaustive = False
+            break
         for case in enumerate_schedules(scripts):
             nsched += 1
             try:
@@ -345,8 +383,10 @@ def run_shard(spec, seed, tier):
                     c = {"scripts": case["scripts"], "choices": case["choices"]}
                     first[v.bucket] = (c, str(v))
                 # continue the enumeration below this schedule is impossible without its branching factors: stop this script set
+                violating_sets += 1
                 break
-    res.exhaustive = True
+    if res.exhaustive is None:
+        res.exhaustive = True
     res.extra["exhaustive_schedules"] = nsched
     res.extra["exhaustive_script_sets"] = len(mine)
     res.extra["exhaustive_bounds"] = ("every schedule (interleaving of opens, script steps and cleanup releases) of: 2 connections with "
@@ -354,6 +394,7 @@ def run_shard(spec, seed, tier):
                                          if tier == "quick" else "all scripts of length <= 2; 3 connections with all scripts of length <= 1"))
     for bucket, (case, msg) in first.items():
         res.add_violation(case, msg, bucket)
+    confirm(res)
     return res
 
 
